@@ -16,6 +16,15 @@ claimed = {
  "C16": ("template extraction for both converters + Bash/Batch lexical scanners: lexical closure per line; simulation of the Converter bracket protocol units over per-method block-keyword / parenthesis effects; Batch label definition/reference families with stack contents resolved; helper flag ⇔ invocation implications over converter field effects",
          "Decides well-formedness for all programs at template + protocol level (holes assumed free of quote/paren characters): closed lines, balanced protocol units with matching closers, every referenced label family defined and no definition numbered by stack depth, helpers emitted iff an invocation can be emitted. bash -n is not run; that the driver follows the protocol is C04's rule.",
          "Trusts the scanners and the bracket-protocol table (Converter interface contract); data-dependent breakage is C08.", "§3 C16"),
+ "C01": ("partial evaluation of the Bash converter's operator methods per (type, operator) cell (template domain, bound constants) against the parser's operator tables (also partially evaluated); allocator-discipline rule over counter/stack origins of emitted names; exit/print template rules",
+         "Necessary structural conditions of the Bash scalar fragment decided for every cell/site: operator mapping table and branch constants, instance-name allocation for nested constructs, panic/print shape. What bash computes is not decided.",
+         "Trusts admissible-spelling tables for POSIX test / bash arithmetic written in the checker; scanners; go/ssa.", "§3 C01"),
+ "C02": ("template extraction: per-activation helper name forms inside functions (mangling consistency), writer/reader agreement of return and argument registers, read-after-call ordering on the emission sequence",
+         "Necessary structural conditions on both emitters for call/return plumbing and helper naming inside functions. Parser-side variable identity rules are added under the same id when built.",
+         "Trusts the template extractor; run-time isolation not decided.", "§3 C02"),
+ "C05": ("partial evaluation of the Batch converter's operator cells, sibling agreement with the Bash converter's accept/reject table, Batch scanner for comparison operand quoting in all templates incl. helper bodies, allocator discipline for labels and loop flags",
+         "cmd.exe cannot run here: only structural clauses are decided (operator table, numeric comparison operand form, label/flag allocation).",
+         "Trusts the Batch lexical scanner and the admissible-operator table; cmd semantics (string vs numeric IF comparison) taken from documentation.", "§3 C05"),
 }
 na_reason = {
  "C15": "value-level agreement of a TypeShell library executed by a shell with Go's strings package over all arguments; no clause of it is visible in the shape of the Go sources or of std/strings.tsh; static analysis (this task's technique family) cannot address it",
